@@ -91,6 +91,9 @@ func fill(rt *rapid.T, v reflect.Value, depth int, label string) {
 	case reflect.String:
 		v.SetString(rapid.StringMatching(`[a-z]{0,6}`).Draw(rt, label))
 	case reflect.Array:
+		if t.Elem().Kind() == reflect.Uint8 && rapid.IntRange(0, 5).Draw(rt, label+"/zeroArray") == 0 {
+			return // all zero (the nil UUID)
+		}
 		for i := 0; i < v.Len(); i++ {
 			fill(rt, v.Index(i), depth, fmt.Sprintf("%s[%d]", label, i))
 		}
@@ -187,6 +190,22 @@ func fill(rt *rapid.T, v reflect.Value, depth int, label string) {
 				continue
 			}
 			fill(rt, v.Field(i), depth, label+"."+t.Field(i).Name)
+		}
+		// now and then two fields of the same reference type hold the SAME object (map<T,T> built from one type
+		// instance, a request and its retry sharing a value): the copy must still be independent of the original
+		for i := 0; i < t.NumField(); i++ {
+			for j := i + 1; j < t.NumField(); j++ {
+				fi, fj := t.Field(i), t.Field(j)
+				if fi.PkgPath != "" || fj.PkgPath != "" || fi.Type != fj.Type {
+					continue
+				}
+				switch fi.Type.Kind() {
+				case reflect.Ptr, reflect.Interface, reflect.Slice, reflect.Map:
+					if rapid.IntRange(0, 3).Draw(rt, fmt.Sprintf("%s/alias%d_%d", label, i, j)) == 0 {
+						v.Field(j).Set(v.Field(i))
+					}
+				}
+			}
 		}
 	}
 }
